@@ -115,26 +115,86 @@ fn check_filter(g: &AdjacencyMap, m: &UModel, keep: &BTreeSet<usize>, name: &str
             reprs::same(&cv, &mi.converse(), &format!("{name}: filter_vertices({keep:?}).converse()"))?;
         }
     }
+    // a predicate that itself filters (the same digraph and the first result)
+    // while the outer call is running; each inner result is judged on the spot
+    if m.order() >= 2 && m.order() <= 24 {
+        let mi = m.induced(keep);
+        // which inner calls the predicate makes: on the operand, on the first
+        // result, or both in either order
+        for mode in 0..4 {
+            let trouble: std::cell::RefCell<Option<String>> = std::cell::RefCell::new(None);
+            let on_operand = |u: usize| {
+                let inner = g.filter_vertices(|w| w != u);
+                let without: BTreeSet<usize> = m.v.iter().copied().filter(|&w| w != u).collect();
+                if let Err(e) = reprs::same(&inner, &m.induced(&without), &format!("{name}: filter_vertices(w != {u}) called from inside a filter_vertices predicate")) {
+                    trouble.borrow_mut().get_or_insert(e);
+                }
+                inner.order() + 1 == m.order()
+            };
+            let on_result = |_: usize| {
+                if mi.order() >= 1 {
+                    let again = f.filter_vertices(|w| keep.contains(&w));
+                    if again != f {
+                        trouble.borrow_mut().get_or_insert(format!("{name}: filtering the first result again from inside a predicate gives {again:?}, not {f:?}"));
+                    }
+                }
+                true
+            };
+            let nested = guarded(|| {
+                g.filter_vertices(|u| {
+                    let inner_ok = match mode {
+                        0 => on_operand(u),
+                        1 => on_result(u),
+                        2 => on_operand(u) && on_result(u),
+                        _ => on_result(u) && on_operand(u),
+                    };
+                    keep.contains(&u) && inner_ok
+                })
+            })
+            .map_err(|p| format!("{name}::filter_vertices with a predicate that calls filter_vertices panicked: {p}"))?;
+            if let Some(e) = trouble.into_inner() {
+                return Err(e);
+            }
+            reprs::same(&nested, &mi, &format!("{name}::filter_vertices({keep:?}) with a predicate that itself calls filter_vertices (mode {mode})"))?;
+        }
+    }
     ensure!(*g == g0, "{name}: filter_vertices changed its operand");
     Ok(())
 }
 
-fn weighted_converse(d: &Dg) -> Verdict {
-    let mut g = AdjacencyListWeighted::<isize>::empty(d.order);
-    let wt = |u: usize, v: usize| (u as isize) * 7 - (v as isize) * 3;
+fn weighted_converse_with<W: Copy + Ord + Debug>(d: &Dg, ty: &str, wt: impl Fn(usize, usize) -> W) -> Verdict {
+    let mut g = AdjacencyListWeighted::<W>::empty(d.order);
     for &(u, v) in &d.arcs {
         g.add_arc_weighted(u, v, wt(u, v));
     }
     let g0 = g.clone();
-    let c = guarded(|| g.converse()).map_err(|p| format!("AdjacencyListWeighted::converse() panicked: {p}"))?;
-    let got: Vec<(usize, usize, isize)> = c.arcs_weighted().map(|(u, v, w)| (u, v, *w)).collect();
-    let mut want: Vec<(usize, usize, isize)> = d.arcs.iter().map(|&(u, v)| (v, u, wt(u, v))).collect();
+    let name = format!("AdjacencyListWeighted<{ty}>");
+    let c = guarded(|| g.converse()).map_err(|p| format!("{name}::converse() panicked: {p}"))?;
+    let got: Vec<(usize, usize, W)> = c.arcs_weighted().map(|(u, v, w)| (u, v, *w)).collect();
+    let mut want: Vec<(usize, usize, W)> = d.arcs.iter().map(|&(u, v)| (v, u, wt(u, v))).collect();
     want.sort();
-    ensure!(got == want, "AdjacencyListWeighted::converse() = {got:?}, definition (weights carried over) {want:?}");
-    ensure!(c.order() == d.order, "AdjacencyListWeighted::converse() has order {}", c.order());
-    let back = c.converse();
-    ensure!(back == g, "AdjacencyListWeighted: converse is not an involution");
-    ensure!(g == g0, "AdjacencyListWeighted::converse() changed its operand");
+    ensure!(got == want, "{name}::converse() = {got:?}, definition (weights carried over) {want:?}");
+    ensure!(c.order() == d.order, "{name}::converse() has order {}", c.order());
+    let back = guarded(|| c.converse()).map_err(|p| format!("{name}::converse().converse() panicked: {p}"))?;
+    let got: Vec<(usize, usize, W)> = back.arcs_weighted().map(|(u, v, w)| (u, v, *w)).collect();
+    let orig: Vec<(usize, usize, W)> = g.arcs_weighted().map(|(u, v, w)| (u, v, *w)).collect();
+    ensure!(got == orig && back.order() == d.order, "{name}: converse is not an involution: {got:?} vs {orig:?}");
+    let now: Vec<(usize, usize, W)> = g0.arcs_weighted().map(|(u, v, w)| (u, v, *w)).collect();
+    ensure!(orig == now, "{name}::converse() changed its operand");
+    Ok(())
+}
+
+/// The weight type is generic: besides isize the converse is taken with a
+/// zero-sized, a one-byte, a 16-byte, an array and an Option weight type.
+fn weighted_converse(d: &Dg) -> Verdict {
+    weighted_converse_with(d, "isize", |u, v| (u as isize) * 7 - (v as isize) * 3)?;
+    if d.order <= 64 {
+        weighted_converse_with(d, "()", |_, _| ())?;
+        weighted_converse_with(d, "u8", |u, v| (u * 31 + v * 7) as u8)?;
+        weighted_converse_with(d, "i128", |u, v| ((u as i128) << 70) - v as i128)?;
+        weighted_converse_with(d, "[u16; 3]", |u, v| [u as u16, v as u16, (u ^ v) as u16])?;
+        weighted_converse_with(d, "Option<i8>", |u, v| ((u + v) % 3 != 0).then_some((u as i8).wrapping_sub(v as i8)))?;
+    }
     Ok(())
 }
 
@@ -164,7 +224,7 @@ impl Prop for C11 {
     type Case = Case;
     const ID: &'static str = "C11";
     const NUM: u64 = 11;
-    const RULE: &'static str = "pairs of digraphs (equal and different orders 1..40 quick / 1..100 thorough; row counts drawn relative to the generated CPU count k: k-1, k, k+1, 2k+1, 3k-1, 5k+3) in AdjacencyList, AdjacencyMap, AdjacencyMatrix, EdgeList (+ AdjacencyListWeighted for converse), and pairs of AdjacencyMap digraphs with non-contiguous ids (interleaved, overlapping, disjoint key sets) built through the public API; a non-empty vertex subset for filter_vertices; k in 1..=16 set with sched_setaffinity. About one random case in 25 has a large order (17..140, weighted towards 63..66, 96, 127..130, 140; at most 700 arcs). A low-rate 'huge' leg adds digraphs of 200..3100 vertices with O(n) arcs (paths, circuits, stars, wheels, trees, one row of exactly 255/256/257 out-neighbours, arcs in the last rows, complete below 300). Operations are also applied to the results of other operations (union.complement.converse, complement.union(converse), complement/converse commuting, complement/union/converse of a filter_vertices result) for order <= 64. Non-trivial = both operands have a common arc and a private arc each, and (k < row count or the vertex set is not 0..|V|); distinct = distinct serialised case.";
+    const RULE: &'static str = "pairs of digraphs (equal and different orders 1..40 quick / 1..100 thorough; row counts drawn relative to the generated CPU count k: k-1, k, k+1, 2k+1, 3k-1, 5k+3) in AdjacencyList, AdjacencyMap, AdjacencyMatrix, EdgeList (+ AdjacencyListWeighted<isize> and, up to order 64, the weight types (), u8, i128, [u16; 3], Option<i8> for converse), and pairs of AdjacencyMap digraphs with non-contiguous ids (interleaved, overlapping, disjoint key sets) built through the public API; a non-empty vertex subset for filter_vertices; k in 1..=16 set with sched_setaffinity. About one random case in 25 has a large order (17..140, weighted towards 63..66, 96, 127..130, 140; at most 700 arcs). A low-rate 'huge' leg adds digraphs of 200..3100 vertices with O(n) arcs (paths, circuits, stars, wheels, trees, one row of exactly 255/256/257 out-neighbours, arcs in the last rows, complete below 300). Operations are also applied to the results of other operations (union.complement.converse, complement.union(converse), complement/converse commuting, complement/union/converse of a filter_vertices result) for order <= 64; up to order 24 filter_vertices is also called with a predicate that itself calls filter_vertices. Non-trivial = both operands have a common arc and a private arc each, and (k < row count or the vertex set is not 0..|V|); distinct = distinct serialised case.";
     const ASSUMPTIONS: &'static [&'static str] = &[
         "union of fixed-order representations is judged with V = 0..max(order)",
         "filter_vertices is only called with a selection that keeps at least one vertex",
